@@ -630,7 +630,15 @@ class Target(DataExchangeProtocol):
                 elif req.pfb.fmt == DEP_REQ.NegativeAck:
                     res = dep_res
                 elif req.pfb.fmt == DEP_REQ.TimeoutExtension:
-                    dep_req = req
+                    if (isinstance(dep_res, DEP_RES) and
+                            dep_res.pfb.fmt != DEP_RES.TimeoutExtension):
+                        # The initiator repeats its last PDU after an
+                        # attention exchange. This is the timeout extension
+                        # response we have seen before, it did not get
+                        # what we sent then.
+                        res = dep_res
+                    else:
+                        dep_req = req
                 elif req.pfb.pni == self.pni:
                     res = dep_res
                 else:
